@@ -372,14 +372,14 @@ def monitor(run, prop, spaces, src, exe):
     limit = 5 if run.tier == "quick" else 10
     all_dis = []
     nsnap = 0
+    seen_fp = set()
     # corpus first
     for c in load_corpus(run.prop):
         sp = c.get("space", 1)
         res = run_sharded("vt.harness.c05_impl", ["run", str(limit)], [{"id": 0, "text": c["text"], "full": True}], src)
         findings, dis, st = evaluate(exe, res, sp)
         all_dis += dis
-        report_hits(run, src, exe, sp, [c["text"]], findings, prop, limit, max_shrink=0)
-    seen_fp = set()
+        seen_fp.update(report_hits(run, src, exe, sp, [c["text"]], findings, prop, limit, max_shrink=0))
     for space in spaces:
         left = ndocs
         first = True
